@@ -34,4 +34,9 @@ CHECKS = {
   "note": "Trusted: scipy.stats, my XML reader, Q and design rows dumped by the driver (cross-checked against the printed covariance). One known finding (correlated-cluster observation stdev) is excluded by tag and reported as KNOWN-FINDING.",
   "technique": "property-based testing (Hypothesis) with recomputation oracle and a metamorphic relation on the real binary",
  },
+ "C07": {
+  "text": "Metamorphic generated-input search: a noisy determined network and a transformed description of the same physical survey (translation, circle rotation, permutation, renaming, gon/degree, swapped distance ends, another of the 16 axes/angle frames) are both adjusted by the real binary; results mapped back to the physical frame must agree.",
+  "note": "Trusted: the truth model defines equivalence (same physical errors re-expressed; covariance signs follow the angle sense). Standard deviations of adjusted observations inside banded clusters are excluded (known finding shared with C09). 3-8 points.",
+  "technique": "metamorphic property-based testing (Hypothesis) on the real binary",
+ },
 }
